@@ -129,17 +129,33 @@ pub fn check(c: &Case) -> CheckResult {
     if let (Some(k), false) = (c.corrupt, strings.is_empty()) {
         let target = strings[k as usize % strings.len()];
         let mut data = vec![];
+        let (mut start, mut len) = (0, 0);
         for (i, f) in c.fields.iter().enumerate() {
-            let start = data.len();
+            let s0 = data.len();
             pack(f, be, &mut data);
             if i == target {
-                data[start + 2] = 0xFF;
+                start = s0 + 2;
+                len = match &f.val {
+                    RVal::Str(s) => s.len(),
+                    _ => 0,
+                };
             }
         }
-        if let Ok(a) = call(&data, "invalid-utf8")? {
-            return Err(viol!("construct:invalid-utf8-accepted", "a string field that is not valid UTF-8 was accepted: {:?}; payload={}", a.get(target).map(|x| &x.value), hex_short(&data)));
+        // 0xFF never occurs in UTF-8: put it at EVERY byte position of the string in turn (valid prefixes of every
+        // length, multi-byte characters cut at every point)
+        for pos in 0..len {
+            let old = data[start + pos];
+            data[start + pos] = 0xFF;
+            pass.subcases += 1;
+            if let Ok(a) = call(&data, "invalid-utf8")? {
+                return Err(viol!("construct:invalid-utf8-accepted", "a string field that is not valid UTF-8 (0xFF at byte {} of {}) was accepted: {:?}; payload={}", pos, len, a.get(target).map(|x| &x.value), hex_short(&data)));
+            }
+            data[start + pos] = old;
         }
         pass.classes.push("invalid-utf8-refused");
+        if len > 64 {
+            pass.classes.push("invalid-utf8-in-long-string");
+        }
     }
     // fixed-point kinds: the statement lists no decoding for them, only "no panic"
     if let Some(k) = c.with_fixed_point {
@@ -170,9 +186,16 @@ fn field() -> BoxedStrategy<Field> {
         .prop_flat_map(|(kind, vari, trai, scod, terminated)| g::value_for(kind, 300).prop_map(move |val| Field { ty: RType { kind, vari, trai, scod }, val, terminated }))
         .boxed()
 }
+fn small_field() -> BoxedStrategy<Field> {
+    let kinds: Vec<RKind> = g::ALL_KINDS.iter().cloned().chain([RKind::Raw]).filter(|k| !matches!(k, RKind::SintFx(_) | RKind::UintFx(_))).collect();
+    (prop::sample::select(kinds), any::<bool>(), g::scod(), any::<bool>())
+        .prop_flat_map(|(kind, vari, scod, terminated)| g::value_for(kind, 6).prop_map(move |val| Field { ty: RType { kind, vari, trai: false, scod }, val, terminated }))
+        .boxed()
+}
 pub fn strategy() -> impl Strategy<Value = Case> {
     (
-        vec(field(), 0..12),
+        // mostly up to a dozen signals; sometimes a few hundred (more than fit one byte of count)
+        prop_oneof![60 => vec(field(), 0..12), 1 => vec(small_field(), 250..300)],
         any::<bool>(),
         prop_oneof![1 => Just(vec![]), 2 => vec(any::<u8>(), 1..20)],
         prop_oneof![1 => Just(None), 2 => any::<u8>().prop_map(Some)],
